@@ -11,9 +11,12 @@ for cj in sorted(glob.glob("/tmp/seed/confirm/C*-*.json")):
     src = r["seed_dir"]
     dst = os.path.join(ROOT, "seeded", sid)
     os.makedirs(dst, exist_ok=True)
-    for f in ("patch.diff", "demo.rs", "notes.md"):
+    for f in ("patch.diff", "demo.rs", "notes.md", "run.sh"):
         if os.path.exists(os.path.join(src, f)):
             shutil.copy(os.path.join(src, f), os.path.join(dst, f))
+    if os.path.isdir(os.path.join(src, "demo")):   # demonstration that is a separate small crate
+        shutil.copytree(os.path.join(src, "demo"), os.path.join(dst, "demo"), dirs_exist_ok=True,
+                        ignore=shutil.ignore_patterns("target", "*.log"))
     notes = open(os.path.join(src, "notes.md")).read() if os.path.exists(os.path.join(src, "notes.md")) else ""
     meta_path = os.path.join(dst, "meta.json")
     old = json.load(open(meta_path)) if os.path.exists(meta_path) else {}
